@@ -23,14 +23,16 @@ CFG = {
     "level_note": (
         "Trusted: Coq kernel + vm_compute; hand model (C15_Model.v, C15_LTS.v) tied by correspondence; the Go "
         "harness (instrumented in-memory store, logging cache facade around the real FacadeMap/FacadeLRU, gate "
-        "scheduler, tagged keys that carry the calling job through the group). case_sound: for sequential cases "
-        "case_accept = 'observation equals the model's' and case_sound is proved through the model (seq_sound); for "
-        "scheduled cases case_accept = 'the observed labels replay on the machine with exactly these answers and "
-        "snapshots' && monitor, so case_sound is immediate there and the claim is carried by the unbounded theorems "
-        "c15_sched_* about every run of that same machine. Environment assumptions: a failing callback leaves the "
-        "store unchanged; callbacks touch only the key they are called for; every cached value has Size() 1 in the "
-        "LRU facade; locHash(MinInt) is negative and the caller panics before anything is accepted (DESIGN section "
-        "8), so lochash_in_range carries that guard. No axioms."
+        "scheduler, tagged keys that carry the calling job through the group). case_accept = 'the observation is "
+        "exactly the model's' for both kinds of case (sequential: the model's event list / result / worker / cache "
+        "and store contents after every call; scheduled: the observed labels replay on the machine with exactly "
+        "these answers and snapshots); case_sound is a real theorem in both cases, proved through the model "
+        "(seq_sound via do_op_spec; conc_sound via the invariants of C15_Sched.v and sched_same_key_serial). "
+        "Environment assumptions: a failing callback leaves the store unchanged; callbacks touch only the key they "
+        "are called for; every cached value has Size() 1 in the LRU facade; locHash(MinInt) is negative and the "
+        "caller panics before anything is accepted (DESIGN section 8), so lochash_in_range carries that guard; the "
+        "machine's atomic step is one instrumented call (cache call or store callback) - sound because the caches "
+        "and the queue are lock-protected (lint) and a worker is one goroutine. No axioms, nothing PENDING."
     ),
     "rule": (
         "sequential: a random history (6..36 calls + probes) over 2..5 keys of one hasher.go key type, 1/2/3/5/127 "
